@@ -277,6 +277,20 @@ Proof.
 Qed.
 Print Assumptions C11_builders_prune_sound.
 
+(* Stream destinations placed with the SOURCE row's key bytes (routeAndCalculateStreamRows cases 2 and 3, hash sharding): pruning
+   on the destination finds the result row if the destination has no key in force, or has the SAME key in force as the source and
+   the result row carries the same key pairs. (Another key on the destination: Refuted.C11_stream_reuse_other_key_refuted.) *)
+Theorem stream_reuse_prune_sound : forall (hash : str -> N) csrc cdst g cond psrc pdst s,
+  c_typ cdst = Hash -> wf_group cdst g -> wf_point pdst ->
+  (c_sk cdst = [] \/ (c_sk csrc = c_sk cdst /\ wkey cdst pdst = wkey csrc psrc)) ->
+  route_reuse hash csrc cdst g psrc = Some s -> eval_cond cdst cond pdst = true ->
+  In s (target_group hash repaired cdst g cond).
+Proof.
+  intros hash csrc cdst g cond psrc pdst s.
+  exact (stream_reuse_prune_sound_proof hash repaired csrc cdst g cond psrc pdst s eq_refl eq_refl (or_introl eq_refl)).
+Qed.
+Print Assumptions stream_reuse_prune_sound.
+
 (* ------------------------------------------------------------------ partitions going offline between write and read *)
 (* The alive shard list (GetAliveShards) is evaluated when a row is written (list aw) and again when a query runs (list ar).
    1. Hash sharding consults only shards that are alive when the query runs: if the owner of a row is offline then, it is
